@@ -15,9 +15,98 @@ const WRITE_FLAGS: i64 = (libc::O_WRONLY | libc::O_RDWR | libc::O_CREAT | libc::
 pub fn run(ctx: &mut Ctx) {
     if gen::chance(1, 3) {
         run_compress(ctx);
+    } else if gen::chance(1, 16) {
+        clone_into_missing_directory(ctx);
     } else {
         run_clone(ctx);
     }
+}
+
+/// every file and directory below the sandbox
+fn tree() -> Vec<String> {
+    fn walk(dir: &std::path::Path, out: &mut Vec<String>) {
+        if let Ok(rd) = std::fs::read_dir(dir) {
+            for e in rd.flatten() {
+                let p = e.path();
+                out.push(format!("{}{}", p.to_string_lossy().trim_start_matches("./"), if p.is_dir() { "/" } else { "" }));
+                if p.is_dir() {
+                    walk(&p, out);
+                }
+            }
+        }
+    }
+    scen::quiet(|| {
+        let mut v = Vec::new();
+        walk(std::path::Path::new("."), &mut v);
+        v.sort();
+        v
+    })
+}
+
+/// The output path lies in a directory that does not exist. Whatever the clone makes of that
+/// (today: "Failed to open"), the only thing it may create is the output itself: no directory,
+/// no side file, nothing removed.
+fn clone_into_missing_directory(ctx: &mut Ctx) {
+    let Some(m) = crate::props::c01::make_archive(ctx, 16 * 1024, false, None) else { return };
+    let http = gen::chance(1, 3);
+    let flag = *gen::t(|t| t.pick(&["--force-create", "--force-create", "--seed-output", ""]));
+    let out = *gen::t(|t| t.pick(&["nodir/out.bin", "new/sub/out.bin", "dir.d/deeper/out.bin"]));
+    scen::quiet(|| {
+        let _ = std::fs::remove_file("a.cba");
+        let _ = std::fs::create_dir_all("dir.d");
+    });
+    let server = if http {
+        Some(scen::serve(std::sync::Arc::new(m.archive.clone())))
+    } else {
+        scen::put_file("a.cba", &m.archive);
+        None
+    };
+    let mut opts = scen::CloneOpts { http, buffers: gen::gen_buffers(), ..Default::default() };
+    match flag {
+        "--force-create" => opts.force_create = true,
+        "--seed-output" => opts.seed_output = true,
+        _ => {}
+    }
+    scen::set_stdin(None);
+    scen::draw_schedule();
+    let before = tree();
+    sys::with(|s| s.log.clear());
+    let r = scen::run(&scen::clone_args("a.cba", out, &opts));
+    if server.is_some() {
+        crate::net::uninstall();
+    }
+    let after = tree();
+    let desc = json!({"clone_into_missing_directory": out, "flag": flag, "transport": if http { "http" } else { "local" }, "outcome": r.outcome.short(), "archive": m.desc});
+    if ctx.want_sample {
+        ctx.verdict.sample = Some(desc.clone());
+    }
+    if matches!(r.outcome, crate::cli::Outcome::Panic(_) | crate::cli::Outcome::StepBudget | crate::cli::Outcome::Deadlock) {
+        ctx.fail(&format!("clone-outcome:{}", r.outcome.class()), format!("clone ended with {}; {}", r.outcome.short(), desc));
+        return;
+    }
+    let events: Vec<(sys::Op, String, i64, i64)> = sys::with(|s| s.log.iter().filter(|e| matches!(e.op, sys::Op::Open | sys::Op::Unlink | sys::Op::Rename | sys::Op::Mkdir)).map(|e| (e.op, s.path_name(e.path).to_string(), e.a, e.ret)).collect());
+    for (op, path, a, ret) in &events {
+        match op {
+            sys::Op::Open if a & WRITE_FLAGS != 0 && path != out => {
+                ctx.fail("opened-for-writing", format!("clone opened {:?} with flags {:#o} (result {}): only the output may be opened for writing, created or truncated; {}", path, a, ret, desc));
+                return;
+            }
+            sys::Op::Unlink | sys::Op::Rename | sys::Op::Mkdir => {
+                ctx.fail("removed-or-renamed", format!("clone issued {:?} on {:?}; {}", op, path, desc));
+                return;
+            }
+            _ => {}
+        }
+    }
+    let new: Vec<&String> = after.iter().filter(|p| !before.contains(p) && p.as_str() != out).collect();
+    let gone: Vec<&String> = before.iter().filter(|p| !after.contains(p)).collect();
+    if !new.is_empty() || !gone.is_empty() {
+        ctx.fail("sandbox-changed", format!("after the clone the sandbox has new entries {:?} and lost {:?}; {}", new, gone, desc));
+        return;
+    }
+    simkit::count("probe:clone-into-missing-directory");
+    ctx.verdict.nontrivial = true;
+    ctx.verdict.shape = 7_000 + out.len() as u64 * 8 + flag.len() as u64 + ((http as u64) << 10);
 }
 
 /// Rare and expensive: an in-place update that swaps two constant regions of 9..17 MiB, i.e.
@@ -265,4 +354,51 @@ fn run_compress(ctx: &mut Ctx) {
     }
     ctx.verdict.nontrivial = events.len() >= 3;
     ctx.verdict.shape = events.len() as u64 ^ ((stdin as u64) << 20) ^ ((force as u64) << 21) ^ ((name.len() as u64) << 24);
+    // one in five: the same compression again, with --force-create, after an earlier attempt was
+    // killed and left its temporary chunk file behind (planted under the name the first run was
+    // seen to create). bita may reuse and remove that file or work around it; a successful run
+    // still leaves no new file but the archive.
+    if !gen::chance(1, 5) {
+        return;
+    }
+    let temp = events.iter().find(|(op, p, a, ret)| *op == sys::Op::Open && a & libc::O_CREAT as i64 != 0 && *ret >= 0 && p != name && !p.starts_with('/') && !before.contains_key(p)).map(|(_, p, _, _)| p.clone());
+    let Some(temp) = temp else { return };
+    scen::put_file(&temp, &vec![0x5Au8; data.len() * 2 + 4096 + gen::draw(3000) as usize]);
+    if !stdin {
+        scen::put_file("src.bin", &data);
+    }
+    scen::set_stdin(if stdin { Some(data.clone()) } else { None });
+    let args2 = scen::compress_args(&spec, if stdin { None } else { Some("src.bin") }, name, true);
+    scen::draw_schedule();
+    let before2 = list_dir("dir.d");
+    sys::with(|s| s.log.clear());
+    let r2 = scen::run(&args2);
+    scen::set_stdin(None);
+    let after2 = list_dir("dir.d");
+    simkit::count("probe:compress-after-stale-temp-file");
+    if !r2.outcome.is_success() {
+        ctx.fail(&format!("compress-outcome:{}", r2.outcome.class()), format!("compress -f with a stale temporary file {:?} in place ended with {}; {}", temp, r2.outcome.short(), desc));
+        return;
+    }
+    let events2: Vec<(sys::Op, String, i64, i64)> = sys::with(|s| s.log.iter().filter(|e| matches!(e.op, sys::Op::Open | sys::Op::Unlink | sys::Op::Rename | sys::Op::Mkdir)).map(|e| (e.op, s.path_name(e.path).to_string(), e.a, e.ret)).collect());
+    for (op, path, a, ret) in &events2 {
+        let protected = before2.contains_key(path) && path != name && *path != temp;
+        match op {
+            sys::Op::Open if a & WRITE_FLAGS != 0 && protected => {
+                ctx.fail("opened-for-writing", format!("compress opened {:?}, which is neither its output nor its temporary file and existed before, with flags {:#o} (result {}); {}", path, a, ret, desc));
+                return;
+            }
+            sys::Op::Unlink | sys::Op::Rename if protected => {
+                ctx.fail("removed-other-file", format!("compress issued {:?} on {:?}, a file that existed before; {}", op, path, desc));
+                return;
+            }
+            _ => {}
+        }
+    }
+    let new: Vec<&String> = after2.keys().filter(|k| !before2.contains_key(*k)).collect();
+    let gone: Vec<&String> = before2.keys().filter(|k| !after2.contains_key(*k) && **k != temp).collect();
+    if !new.is_empty() || !gone.is_empty() {
+        ctx.fail("leftover-files", format!("compress -f with a stale temporary file {:?} in place: new files {:?}, lost files {:?} (only the archive may change, only the temporary file may go); {}", temp, new, gone, desc));
+        return;
+    }
 }
